@@ -305,60 +305,16 @@ def _under_truthy(g, test_pred, node):
     return False
 
 
-@rule(P, "D10.3", "T-DOM", floor=5)
+@rule(P, "D10.3", "T-WITNESS", floor=5)
 def d10_3(ctx):
-    """Forward Open needs a session; connection/session state is set only on a successful response; open() succeeds only after registration."""
-    drv = ctx.model.cls(f"{CD}:CIPDriver")
-    fo = drv.methods["_forward_open"]
-    g = ctx.cfg(fo)
-    # session test raises CommError and dominates the request
-    sess_t = None
-    for t in g.nodes:
-        if t.kind == "test":
-            c = cmp_norm(t.ast)
-            if c and c[0] == "==0" and c[1].terms == {"self._session": 1} and c[1].const == 0:
-                sess_t = (t, True)
-            if isinstance(t.ast, ast.UnaryOp) and isinstance(t.ast.op, ast.Not) and attr_path(t.ast.operand) == "self._session":
-                sess_t = (t, True)
-    gm = [n for n in g.nodes if n.kind == "stmt" and any(isinstance(c, ast.Call) and attr_path(c.func) == "self.generic_message" for c in walk(n.ast))]
-    ok = False
-    if sess_t and gm:
-        raised, cont = branch_outcome(g, sess_t[0], True)
-        ok = raised == {"CommError"} and not cont and g.branch_dominates(sess_t[0], False, gm[0])
-    ctx.check(ok, ckey(f"{CD}:CIPDriver._forward_open", "needs-session"), fo, "session == 0 raises CommError before any Forward Open is sent", "Forward Open can be sent without a registered session (no dominating `_session == 0 -> CommError`)")
-    # state only under `if response`
-    for attr in ("_target_cid", "_target_is_connected"):
-        stores = [n for n in g.nodes if n.kind == "stmt" and isinstance(n.ast, ast.Assign) and any(attr_path(t) == f"self.{attr}" for t in n.ast.targets)]
-        good = bool(stores) and all(_under_truthy(g, lambda e: atom_name(e) == "response", s) for s in stores)
-        if attr == "_target_is_connected":
-            good = good and all(isinstance(s.ast.value, ast.Constant) and s.ast.value.value is True for s in stores)
-        ctx.check(good, ckey(f"{CD}:CIPDriver._forward_open", attr), stores[0].ast if stores else fo, f"self.{attr} is set only under a truthy Forward Open response", f"self.{attr} is set without a successful Forward Open response")
-    # return values
-    rets_true = [n for n in g.nodes if n.kind == "stmt" and isinstance(n.ast, ast.Return) and isinstance(n.ast.value, ast.Constant) and n.ast.value.value is True]
-    good = all(_under_truthy(g, lambda e: atom_name(e) in ("response", "self._target_is_connected"), r) for r in rets_true) and bool(rets_true)
-    ctx.check(good, ckey(f"{CD}:CIPDriver._forward_open", "returns"), fo, "returns True only when connected / response truthy", "_forward_open can return True without a successful response")
-    rs = drv.methods["_register_session"]
-    g2 = ctx.cfg(rs)
-    stores = [n for n in g2.nodes if n.kind == "stmt" and isinstance(n.ast, ast.Assign) and any(attr_path(t) == "self._session" for t in n.ast.targets)]
-    good = bool(stores) and all(_under_truthy(g2, lambda e: atom_name(e) == "response", s) and atom_name(s.ast.value) == "response.session" for s in stores)
-    ctx.check(good, ckey(f"{CD}:CIPDriver._register_session", "_session"), stores[0].ast if stores else rs, "session handle stored only from a truthy RegisterSession response", "self._session is stored without a valid RegisterSession response / not from response.session")
-    op = drv.methods["open"]
-    g3 = ctx.cfg(op)
-    bad = []
-    for r in [n for n in g3.nodes if n.kind == "stmt" and isinstance(n.ast, ast.Return) and isinstance(n.ast.value, ast.Constant) and n.ast.value.value is True]:
-        a = _under_truthy(g3, lambda e: atom_name(e) == "self._connection_opened", r)
-        b = False
-        for t in g3.nodes:
-            if t.kind == "test" and isinstance(t.ast, ast.Compare) and isinstance(t.ast.left, ast.Call) and attr_path(t.ast.left.func) == "self._register_session":
-                if isinstance(t.ast.ops[0], ast.Is) and g3.branch_dominates(t, False, r):
-                    b = True
-                if isinstance(t.ast.ops[0], ast.IsNot) and g3.branch_dominates(t, True, r):
-                    b = True
-            if t.kind == "test" and isinstance(t.ast, ast.Call) and attr_path(t.ast.func) == "self._register_session" and g3.branch_dominates(t, True, r):
-                b = True
-        if not (a or b):
-            bad.append(r)
-    ctx.check(not bad, ckey(f"{CD}:CIPDriver.open", "returns"), bad[0].ast if bad else op, "open() returns True only when already open or after _register_session() succeeded", "open() can return True without a registered session")
+    """Forward Open needs a session; connection / session state is set only from a valid reply; open() succeeds only after
+    registration.  Decided by folding `_forward_open`, `_register_session`, `_un_register_session`, `_forward_close` and `open`
+    on witness replies (D10.12, D10.13); an earlier form required the stores to sit under `if response:` and alarmed on the
+    guard-clause form (`if not response: ...; return None` first)."""
+    from .driver import _forward_open_rule, _session_rule
+
+    _forward_open_rule(ctx)
+    _session_rule(ctx)
 
 
 RESET = {"_sock": None, "_target_is_connected": False, "_session": 0, "_connection_opened": False}
@@ -515,74 +471,28 @@ def _list_widths(ctx, drv, fn, listname, cfgw):
     return None, None
 
 
-@rule(P, "D10.8", "T-LAYOUT", floor=6)
+@rule(P, "D10.8", "T-WITNESS", floor=6)
 def d10_8(ctx):
-    """Forward Open / Forward Close request data: field order and widths per CIP Vol.1 3-5.5; network parameters; path form."""
-    sp = ctx.spec("connmgr")
-    drv = ctx.model.cls(f"{CD}:CIPDriver")
-    cfgw = _cfg_widths(ctx, drv)
-    fo = drv.methods["_forward_open"]
-    got, node = _list_widths(ctx, drv, fo, "forward_open_msg", cfgw)
-    want = [w for _, w in sp["forward_open"]["fields"]]
-    if got is None:
-        ctx.undecided(ckey(f"{CD}:CIPDriver._forward_open", "layout"), fo, "forward_open_msg list not found")
-    else:
-        widths = [w for w, _ in got]
-        norm = [("P" if w == "net_params" else w) for w in widths]
-        wantn = [("P" if isinstance(w, str) else w) for w in want]
-        ctx.check(norm == wantn, ckey(f"{CD}:CIPDriver._forward_open", "layout"), node, "Forward Open fields have the specified order and widths",
-                  f"Forward Open request data field widths {norm} differ from the specification {wantn}", fields=[s for _, s in got])
-    # net params: extended -> UDINT (4) with mask 0xFFFF and flags << 16; standard -> UINT (2) with mask 0x01FF
-    np_ = sp["network_params"]
-    facts = {}
-    for n in walk(fo):
-        if isinstance(n, ast.If) and isinstance(n.test, ast.Subscript) and attr_path(n.test.value) == "self._cfg" and ctx.folder.eval(n.test.slice, drv.module) == "extended forward open":
-            for arm, name in ((n.body, "extended"), (n.orelse, "standard")):
-                for st in arm:
-                    if isinstance(st, ast.Assign) and atom_name(st.targets[0]) == "net_params" and isinstance(st.value, ast.Call):
-                        t = ctx.folder.eval(st.value.func.value, drv.module)
-                        masks = [ctx.folder.eval(b.right, drv.module, func=fo) for b in walk(st.value) if isinstance(b, ast.BinOp) and isinstance(b.op, ast.BitAnd)]
-                        shifts = [ctx.folder.eval(b.right, drv.module, func=fo) for b in walk(st.value) if isinstance(b, ast.BinOp) and isinstance(b.op, ast.LShift)]
-                        uses_size = any(attr_path(x) == "self.connection_size" for x in walk(st.value))
-                        facts[name] = {"type": t.ci.name if isinstance(t, ClassRef) else None, "mask": masks, "shift": shifts, "size": uses_size}
-    init_flags = ctx.folder.eval(ast.Name(id="init_net_params", ctx=ast.Load()), drv.module, func=fo)
-    good = (
-        facts.get("extended") == {"type": "UDINT", "mask": [np_["size_mask_32"]], "shift": [np_["large_upper_half_is_16bit_flags_shifted"]], "size": True}
-        and facts.get("standard") == {"type": "UINT", "mask": [np_["size_mask_16"]], "shift": [], "size": True}
-        and isinstance(init_flags, int) and init_flags & np_["connection_type_mask_16"] == np_["point_to_point_16"] and init_flags & np_["variable_size_bit_16"] and init_flags & np_["size_mask_16"] == 0
-    )
-    ctx.check(good, ckey(f"{CD}:CIPDriver._forward_open", "net-params"), fo, "network parameters: point-to-point, variable size, size in 9 bits (0x54) / 16 bits (0x5B)",
-              f"network connection parameters deviate from CIP 3-5.5.1.1: {facts}, flags {init_flags!r}", flags=init_flags, **{k: str(v) for k, v in facts.items()})
-    # service chosen by the same flag as the parameter width (0x5B with 32-bit parameters, 0x54 with 16-bit ones), request
-    # addressing and outcome handling: decided by folding `_forward_open` on witnesses (D10.12) - an earlier form required a
-    # conditional expression assigned to `service` and alarmed when the choice was merged into the parameter branch
-    from .driver import _forward_open_rule
+    """Forward Open / Forward Close request data: field order and widths per CIP Vol.1 3-5.5 (priority, ticks, connection ids,
+    serial / vendor / originator triple, multiplier, RPIs and network parameters twice, transport class; close: priority, ticks
+    and the same triple), network parameters (point-to-point, variable size, size in 9 bits with service 0x54 / in 16 bits of a
+    32-bit word with service 0x5B), path form (word count; reserved byte only in the close).  Decided by folding both methods on
+    witness configurations and comparing the request data byte for byte (D10.12, D10.13); an earlier form read the widths off
+    the list display and the mask expressions and alarmed when the `extended` flag was bound to a local first."""
+    from .driver import _forward_open_rule, _session_rule
 
+    drv = ctx.model.cls(f"{CD}:CIPDriver")
+    fo = drv.methods["_forward_open"]
     _forward_open_rule(ctx)
+    _session_rule(ctx)
+    # the identifiers the request data is assembled from have the widths of their fields wherever they are stored
+    cfgw = _cfg_widths(ctx, drv)
+    want_w = {"cid": {4}, "csn": {2}, "vid": {2}, "vsn": {4}}
+    got_w = {k: cfgw.get(k) for k in want_w}
+    ctx.check(got_w == want_w, ckey(f"{CD}:CIPDriver.__init__", "identifier-widths"), drv.methods["__init__"], "connection id 4, connection serial 2, vendor id 2, originator serial 4 bytes at every store",
+              f"connection identifiers are stored with widths {got_w}; the Forward Open fields are {want_w}")
     svc = (ctx.folder.eval(ast.parse("ConnectionManagerServices.forward_open", mode="eval").body, drv.module), ctx.folder.eval(ast.parse("ConnectionManagerServices.large_forward_open", mode="eval").body, drv.module))
     ctx.check(svc == (b"\x54", b"\x5b"), ckey(f"{CD}:CIPDriver._forward_open", "service"), fo, "Forward Open = 0x54, Large Forward Open = 0x5B", f"Forward Open service codes are {svc!r}; CIP Vol.1 3-5.5 has 0x54 / 0x5B")
-    # paths: open -> word count without reserved byte; close -> with reserved byte
-    for mname, want_pad in (("_forward_open", sp["forward_open"]["path"]["reserved_byte_after_size"]), ("_forward_close", sp["forward_close"]["path"]["reserved_byte_after_size"])):
-        m = drv.methods[mname]
-        found = None
-        for c in walk(m):
-            if isinstance(c, ast.Call) and attr_path(c.func) == "PADDED_EPATH.encode":
-                kw = {k.arg: ctx.folder.eval(k.value, drv.module) for k in c.keywords}
-                arg = src(c.args[0]).replace(" ", "")
-                found = (kw.get("length", False), kw.get("pad_length", False), arg)
-        good = found is not None and found[0] is True and bool(found[1]) == want_pad and found[2] == "self._cfg['cip_path']+MSG_ROUTER_PATH"
-        ctx.check(good, ckey(f"{CD}:CIPDriver.{mname}", "path"), m, f"route = cip_path + message-router path, word count, reserved byte: {want_pad}",
-                  f"{mname}: connection path encoded with {found}; the specification wants length=True, pad_length={want_pad}, route cip_path + MSG_ROUTER_PATH", got=found)
-    fc = drv.methods["_forward_close"]
-    got, node = _list_widths(ctx, drv, fc, "forward_close_msg", cfgw)
-    want = [w for _, w in sp["forward_close"]["fields"]]
-    ctx.check(got is not None and [w for w, _ in got] == want, ckey(f"{CD}:CIPDriver._forward_close", "layout"), node or fc, "Forward Close fields have the specified order and widths",
-              f"Forward Close request data widths {[w for w, _ in (got or [])]} differ from {want}", fields=[s for _, s in (got or [])])
-    # both use the triad of the same connection: csn, vid, vsn in that order
-    def triad(lst):
-        return [s for _, s in (lst or []) if s.startswith("_cfg[") and any(k in s for k in ("csn", "vid", "vsn"))]
-    go, _ = _list_widths(ctx, drv, fo, "forward_open_msg", cfgw)
-    ctx.check(triad(go) == triad(got) == ["_cfg['csn']", "_cfg['vid']", "_cfg['vsn']"], ckey(f"{CD}:CIPDriver._forward_close", "triad"), fc, "close names the connection by the same serial/vendor/originator triple as open", "Forward Close does not identify the connection with the triple sent in Forward Open", open=triad(go), close=triad(got))
 
 
 @rule(P, "D10.9", "T-DOM", floor=1)
